@@ -1018,12 +1018,26 @@ fn run_create(spec: &Spec, stub: &str) {
             show_table("fds_after_err");
         }
     }
-    if let Some(p2) = spec.get("relaunch_path") {
-        // the same launch once more in the same process after the parent's PATH has changed
-        if p2 == "unset" {
-            std::env::remove_var("PATH");
-        } else {
-            std::env::set_var("PATH", OsString::from_vec(hexdec(p2)));
+    if spec.get("relaunch_path").is_some() || spec.get("relaunch_sigpipe").is_some() {
+        // the same launch once more in the same process after the parent's PATH / SIGPIPE disposition / signal mask
+        // has changed
+        if let Some(p2) = spec.get("relaunch_path") {
+            if p2 == "unset" {
+                std::env::remove_var("PATH");
+            } else {
+                std::env::set_var("PATH", OsString::from_vec(hexdec(p2)));
+            }
+        }
+        if let Some(d) = spec.get("relaunch_sigpipe") {
+            unsafe {
+                (REAL_SIGNAL.unwrap())(libc::SIGPIPE, if d == "dfl" { libc::SIG_DFL } else { libc::SIG_IGN });
+            }
+        }
+        if let Some(m) = spec.get("relaunch_mask") {
+            let bytes = hexdec(m);
+            let mut set = [0u8; 8];
+            set[..bytes.len().min(8)].copy_from_slice(&bytes[..bytes.len().min(8)]);
+            unsafe { libc::syscall(libc::SYS_rt_sigprocmask, libc::SIG_SETMASK, set.as_ptr(), 0usize, 8usize) };
         }
         let cfg = config_of(spec, &mut rcs);
         LOGGING.store(true, Ordering::SeqCst);
